@@ -47,6 +47,7 @@ type world struct {
 	commitsInReinstate int
 	loggedInReinstate  int
 	synced        bool // passive is expected to equal active (fault-free so far, or cleanly reinstated)
+	catFault      bool // a catalogue operation (create / remove) hit the passive fault: nothing records that
 	dead          bool // the case stopped observing (a racy outcome followed)
 	dirtyWhy      string
 }
@@ -143,7 +144,9 @@ func (w *world) meta() {
 	w.s.Op("meta", fmt.Sprintf("g=%s l2=%s logs=%d F0: %s F1: %s", g, w.l2Flags(), w.logCount(), f0, f1))
 	if w.synced && w.broke == "" && w.midReinstate == 0 && stripStatus(f0) != stripStatus(f1) {
 		sig := "C27/passive-differs-fault-free"
-		if w.everFault {
+		if w.catFault {
+			sig = "C27/passive-diverged-unrecorded-after-catalogue-fault"
+		} else if w.everFault {
 			sig = "C27/passive-differs-after-reinstate"
 		}
 		w.s.Fail(sig, "the passive folder's store list / store infos / registry differ from the active folder's although no fault is outstanding", f0+" vs "+f1)
@@ -194,6 +197,7 @@ func (w *world) write(name string, nAdd, nUpd, nDel int) {
 		w.s.Hit("create:" + out)
 		if err != nil {
 			if w.broke != "" {
+				w.catFault = true
 				w.s.Fail("C27/create-fails-when-passive-unreachable", "a passive-side I/O error makes NewBtree fail and rolls the store creation back on the active side; FailedToReplicate is not set",
 					w.broke+": "+err.Error())
 			} else {
@@ -308,6 +312,7 @@ func (w *world) remove(name string) {
 	w.s.Op("remove "+name, out)
 	w.s.Hit("remove:" + out)
 	if err != nil && w.broke != "" {
+		w.catFault = true
 		w.s.Fail("C27/remove-errors-when-passive-unreachable", "RemoveBtree returns an error because the passive folder cannot be written (the active side is already removed)", err.Error())
 	}
 	if w.broke != "" || wasFailed {
